@@ -510,11 +510,11 @@ func TestVerifC11QueryLayouts(t *testing.T) {
 	defer stats.Flush()
 	cl, err := vkSharedCluster()
 	if err != nil {
-		t.Fatalf("cluster: %v", err)
+		vkSetupFailed(t, "cluster: %v", err)
 	}
 	db := fmt.Sprintf("c11_%d", os.Getpid())
 	if err := vqEnsureDB(cl, db); err != nil {
-		t.Fatalf("create db: %v", err)
+		vkSetupFailed(t, "create db: %v", err)
 	}
 	ncase := 0
 	rapid.Check(t, func(rt *rapid.T) {
@@ -568,7 +568,7 @@ func TestVerifC11QueryLayouts(t *testing.T) {
 			}
 		}
 		if err := cl.syncMeta(); err != nil {
-			rt.Fatalf("harness: %v", err)
+			vkSetupFailed(rt, "%v", err)
 		}
 		// statements: several per data set (loading dominates the cost)
 		nst := rapid.IntRange(2, 5).Draw(rt, "nstmts")
@@ -714,7 +714,7 @@ func TestVerifC11KFSlimit(t *testing.T) {
 	defer stats.Flush()
 	cl, err := vkSharedCluster()
 	if err != nil {
-		t.Fatalf("cluster: %v", err)
+		vkSetupFailed(t, "cluster: %v", err)
 	}
 	db := fmt.Sprintf("c11kf_%d", os.Getpid())
 	if err := vqEnsureDB(cl, db); err != nil {
